@@ -2,10 +2,10 @@
   KB.EtcdShim — executable model of the etcd-facing endpoint: request classification
   (pkg/server/etcd/kv.go: Txn, Range, isCreate / isDelete / isUpdate / isCompact) and response shaping
   (pkg/server/etcd/backendshim.go: Create / Delete / Update / Get / List / Count / GetPartitions / Watch)
-  over the sequential backend model (KB.Backend).  The code is modelled AS IT IS: the recognisers look
-  only at the fields the Go recognisers look at, so every field etcd semantics depend on but the Go code
-  ignores (op keys, range_end, put flags, range options …) is present in the request types and ignored
-  here exactly where the Go code ignores it.
+  over the sequential backend model (KB.Backend).  The code is modelled AS IT IS (after the repair of the
+  recognisers, /repo commit 4c41c58): the recognisers look at exactly the fields the Go recognisers look
+  at; every field etcd semantics depend on (op keys, range_end, put flags, range options …) is present in
+  the request types, and is ignored here exactly where the Go code still ignores it (Range options).
 
   Assumed (not modelled): this node is the leader and `SyncReadRevision` succeeds (the harness runs the
   production peer service over an election stub that says so); the request deadline has not passed;
@@ -150,31 +150,43 @@ def TxnResp.obs (t : TxnReq) (r : TxnResp) : TxnObs :=
   { ok := r.ok, writeRev := if r.wrote then some r.hdr else none,
     reads := readsOf (if r.ok then t.success else t.failure) r.resps }
 
-/-! ### the recognisers of kv.go -/
+/-! ### the recognisers of kv.go (after commit 4c41c58: they accept only the shapes they execute) -/
 
-def Compare.isModEq (c : Compare) : Bool := c.target == .mod && c.result == .equal
+/-- `isModCompareOn(c, key)`: `ModRevision(key) == x` on the single key `key` -/
+def Compare.isModOn (c : Compare) (key : Bytes) : Bool :=
+  c.target == .mod && c.result == .equal && c.rangeEnd.isEmpty && c.key == key
 
-/-- `isCreate`: one compare `mod = 0`, no failure op, one success op that is a put. The compare KEY
-is not looked at. -/
+/-- `isPlainGet(op, key)`: a point read of `key` at the current revision (limit, sort order and
+`serializable` are not looked at: they cannot change the answer of a point read) -/
+def RangeReq.isPlainGet (r : RangeReq) (key : Bytes) : Bool :=
+  r.key == key && r.rangeEnd.isEmpty && r.revision == 0 && !r.countOnly && !r.keysOnly &&
+  r.minMod == 0 && r.maxMod == 0 && r.minCreate == 0 && r.maxCreate == 0
+
+/-- `isCreate`: one compare `mod(put.key) = 0`, no failure op, one success op that is a put. -/
 def isCreate (t : TxnReq) : Option PutReq :=
   match t.compare, t.failure, t.success with
-  | [c], [], [.put p] => if c.isModEq && c.int == 0 then some p else none
+  | [c], [], [.put p] => if c.isModOn p.key && c.int == 0 then some p else none
   | _, _, _ => none
 
-/-- `isDelete`: (a) no compare, no failure op, success = [range, delete-range]; (b) one compare
-`mod = rev`, failure = [range], success = [delete-range]. The key comes from the delete-range op; its
-`range_end`, the compare key and the range op are not looked at. -/
-def isDelete (t : TxnReq) : Option (Int × Bytes) :=
+/-- `isDelete` → (expected revision, key, guarded): (a) no compare, no failure op, success =
+[plain Get k, point delete k]; (b) one compare `mod(k) = rev` with `rev > 0`, failure = [plain Get k],
+success = [point delete k] (`pointDelete`: empty `range_end`). -/
+def isDelete (t : TxnReq) : Option (Int × Bytes × Bool) :=
   match t.compare, t.failure, t.success with
-  | [], [], [.range _, .del d] => some (0, d.key)
-  | [c], [.range _], [.del d] => if c.isModEq then some (c.int, d.key) else none
+  | [], [], [.range g, .del d] =>
+    if d.rangeEnd.isEmpty && g.isPlainGet d.key then some (0, d.key, false) else none
+  | [c], [.range g], [.del d] =>
+    if d.rangeEnd.isEmpty && c.isModOn d.key && decide (c.int > 0) && g.isPlainGet d.key
+    then some (c.int, d.key, true) else none
   | _, _, _ => none
 
-/-- `isUpdate`: one compare `mod = rev`, success = [put], failure = [range]. The key comes from the
-COMPARE; the put key and flags and the range op are not looked at. -/
+/-- `isUpdate`: one compare `mod(put.key) = rev`, success = [put without flags], failure =
+[plain Get put.key]. -/
 def isUpdate (t : TxnReq) : Option (Int × Bytes × Bytes × Int) :=
   match t.compare, t.failure, t.success with
-  | [c], [.range _], [.put p] => if c.isModEq then some (c.int, c.key, p.val, p.lease) else none
+  | [c], [.range g], [.put p] =>
+    if c.isModOn p.key && !p.prevKv && !p.ignoreValue && !p.ignoreLease && g.isPlainGet p.key
+    then some (c.int, p.key, p.val, p.lease) else none
   | _, _, _ => none
 
 /-- "compact_rev_key" -/
@@ -188,7 +200,7 @@ def isCompact (t : TxnReq) : Bool :=
 /-- The backend call a transaction is turned into (`RPCServer.Txn`, in the order of its `if` chain). -/
 inductive Shape where
   | create (p : PutReq)
-  | delete (rev : Int) (key : Bytes)
+  | delete (rev : Int) (key : Bytes) (guarded : Bool)
   | update (rev : Int) (key val : Bytes) (lease : Int)
   | compact
   | unsupported
@@ -199,7 +211,7 @@ def classify (t : TxnReq) : Shape :=
   | some p => .create p
   | none =>
     match isDelete t with
-    | some (rev, key) => .delete rev key
+    | some (rev, key, guarded) => .delete rev key guarded
     | none =>
       match isUpdate t with
       | some (rev, key, val, lease) => .update rev key val lease
@@ -242,11 +254,23 @@ def shimUpdate (c : Cfg) (s : BState) (rev : Int) (key val : Bytes) : Except EEr
 def compactResp : TxnResp :=
   { ok := false, hdr := 0, resps := [.range 0 [([], [], 0)] 1 false], wrote := false }
 
+/-- kv.go, Txn: a transaction without compares always takes its success branch — the unguarded delete
+of a missing key (`Succeeded = false`, one range response without key-values) is answered
+`Succeeded = true`; a lost race (current kv in the response) stays `false`. -/
+def unguardedFlag (r : TxnResp) : TxnResp :=
+  match r.ok, r.resps with
+  | false, [.range _ [] _ _] => { r with ok := true }
+  | _, _ => r
+
 /-- `RPCServer.Txn` on the leader. -/
 def shimTxn (c : Cfg) (s : BState) (t : TxnReq) : Except EErr TxnResp × BState :=
   match classify t with
   | .create p => shimCreate c s p
-  | .delete rev key => shimDelete c s rev key
+  | .delete rev key true => shimDelete c s rev key
+  | .delete rev key false =>
+    match shimDelete c s rev key with
+    | (.ok r, s') => (.ok (unguardedFlag r), s')
+    | (.error e, s') => (.error e, s')
   | .update rev key val _ => shimUpdate c s rev key val
   | .compact => (.ok compactResp, s)
   | .unsupported => (.error .unsupported, s)
